@@ -60,6 +60,10 @@ func newYTree(root store.Cursor) (*ytree, *ycursor) {
 		}
 		y := &ycursor{c: c, tree: t}
 		t.wrap[c] = y
+		// like the real store, the lists have spare capacity
+		y.ns = make([]store.Cursor, 0, len(c.Namespaces())+16)
+		y.at = make([]store.Cursor, 0, len(c.Attributes())+16)
+		y.ch = make([]store.Cursor, 0, len(c.Children())+16)
 		for _, x := range c.Namespaces() {
 			y.ns = append(y.ns, mk(x))
 		}
@@ -68,15 +72,6 @@ func newYTree(root store.Cursor) (*ytree, *ycursor) {
 		}
 		for _, x := range c.Children() {
 			y.ch = append(y.ch, mk(x))
-		}
-		if y.ns == nil {
-			y.ns = []store.Cursor{}
-		}
-		if y.at == nil {
-			y.at = []store.Cursor{}
-		}
-		if y.ch == nil {
-			y.ch = []store.Cursor{}
 		}
 		return y
 	}
@@ -116,6 +111,9 @@ var c14Scenarios = []c14Scenario{
 	{"three threads, same compiled expression", [][]c14Call{{{"$v | //c", "/"}}, {{"$v | //c", "/0/0"}}, {{"$v | //c", "/"}}}},
 	{"string and number results", [][]c14Call{{{"string($w)", "/"}}, {{"sum(//c) + count($v | $w)", "/"}}}},
 	{"sorting the same descending variable", [][]c14Call{{{"$v[last()]", "/"}}, {{"($v)[1]", "/"}}, {{"$v | $v", "/"}}}},
+	{"attribute and namespace lists of several context nodes", [][]c14Call{{{"(/* | //b)/@*", "/"}}, {{"//*/@*", "/0/0"}}, {{"//*/namespace::*", "/"}}}},
+	{"child lists of several context nodes", [][]c14Call{{{"//*/*", "/"}}, {{"(//b | /*)/node()", "/"}}}},
+	{"sibling axes over the same child list", [][]c14Call{{{"//d/preceding-sibling::node()", "/"}}, {{"/*/*[1]/following-sibling::node()", "/"}}, {{"//d/preceding-sibling::*[1]", "/"}}}},
 }
 
 type c14World struct {
@@ -238,6 +236,13 @@ func (w *c14World) fingerprint(full bool) string {
 	}
 	s := fmt.Sprintf("v=%v w=%v maps=%d/%d/%d", id(v), id(x), len(w.nsMap), len(w.varMap), len(w.fnMap))
 	if full {
+		// the proxy tree's own lists, spare capacity included
+		for _, n := range w.b.Doc.Nodes {
+			y := w.tree.wrap[w.b.ToCur[n]]
+			for _, l := range [][]store.Cursor{y.ns, y.at, y.ch} {
+				s += fmt.Sprint(id(xsel.NodeSet(l[:cap(l)])))
+			}
+		}
 		h := snap.New()
 		root := w.b.Root
 		s += fmt.Sprintf(" tree=%x", h.Hash(&root))
@@ -357,7 +362,17 @@ func c14Library(c *run.Check) {
 		pristine := world.fingerprint(true)
 		p1, v1, _ := c14RunOnce(world, sc, serial, nil, true)
 		p2, v2, _ := c14RunOnce(world, sc, serial, nil, true)
-		if len(p1) != len(p2) || v1 != v2 {
+		if v1 != "" || v2 != "" {
+			// already the default schedule fails (the second run starts from the
+			// objects the first one used: state leaking between calls shows here)
+			v := v1
+			if v == "" {
+				v = "after one execution the shared objects are no longer what they were: " + v2
+			}
+			c.Violation(c14Replay{Scenario: sc, Schedule: []int{}, Detail: v}, fmt.Sprintf("scenario %q, default schedule: %s", sc.Name, v))
+			return
+		}
+		if len(p1) != len(p2) {
 			c.Violation(c14Replay{Scenario: sc, Detail: "non-deterministic replay"}, fmt.Sprintf("HARNESS: scenario %q is not deterministic under the scheduler (%d vs %d points)", sc.Name, len(p1), len(p2)))
 			return
 		}
